@@ -126,6 +126,30 @@ fn float_factorial(x: f64) -> f64 {
     }
 }
 
+/// Total order on the exact values: an integer beyond 2^53 is not rounded to f64 first, NaN sorts last.
+fn cmp_exact(a: &Number, b: &Number) -> std::cmp::Ordering {
+    use std::cmp::Ordering;
+    fn int_float(i: i64, f: f64) -> Ordering {
+        if f.is_nan() || f >= 9223372036854775808.0 {
+            return Ordering::Less;
+        }
+        if f < -9223372036854775808.0 {
+            return Ordering::Greater;
+        }
+        let t = f.trunc();
+        i.cmp(&(t as i64))
+            .then((0.0).partial_cmp(&(f - t)).unwrap_or(Ordering::Equal))
+    }
+    match (a, b) {
+        (Number::Integer(a), Number::Integer(b)) => a.cmp(b),
+        (Number::Integer(a), Number::Float(b)) => int_float(*a, *b),
+        (Number::Float(a), Number::Integer(b)) => int_float(*b, *a).reverse(),
+        (Number::Float(a), Number::Float(b)) => a
+            .partial_cmp(b)
+            .unwrap_or_else(|| a.is_nan().cmp(&b.is_nan())),
+    }
+}
+
 pub fn eval(expr: Node) -> Result<Number, Box<dyn error::Error>> {
     #[cfg(feature = "verif_hooks")]
     crate::verif_hooks::tick(crate::verif_hooks::Point::EvalEntry);
@@ -553,7 +577,11 @@ pub fn eval(expr: Node) -> Result<Number, Box<dyn error::Error>> {
                                 Number::Float(f) => f,
                                 Number::Integer(i) => i as f64,
                             };
-                            if lf64 < rf64 {
+                            let keep_left = match (&l, &r) {
+                                (Number::Integer(a), Number::Integer(b)) => a < b,
+                                _ => lf64 < rf64,
+                            };
+                            if keep_left {
                                 result = Some(l);
                             } else {
                                 result = Some(r);
@@ -589,7 +617,11 @@ pub fn eval(expr: Node) -> Result<Number, Box<dyn error::Error>> {
                                 Number::Float(f) => f,
                                 Number::Integer(i) => i as f64,
                             };
-                            if lf64 > rf64 {
+                            let keep_left = match (&l, &r) {
+                                (Number::Integer(a), Number::Integer(b)) => a > b,
+                                _ => lf64 > rf64,
+                            };
+                            if keep_left {
                                 result = Some(l);
                             } else {
                                 result = Some(r);
@@ -630,18 +662,7 @@ pub fn eval(expr: Node) -> Result<Number, Box<dyn error::Error>> {
                 crate::verif_hooks::tick(crate::verif_hooks::Point::EvalLoop);
                 results.push(eval(arg)?);
             }
-            results.sort_by(|a, b| {
-                let a = match a {
-                    Number::Integer(x) => (*x) as f64,
-                    Number::Float(x) => *x,
-                };
-                let b = match b {
-                    Number::Integer(x) => (*x) as f64,
-                    Number::Float(x) => *x,
-                };
-                a.partial_cmp(&b)
-                    .unwrap_or_else(|| a.is_nan().cmp(&b.is_nan()))
-            });
+            results.sort_by(cmp_exact);
             let len = results.len();
             if len % 2 == 0 {
                 let a = results[len >> 1].clone();
